@@ -81,10 +81,46 @@ PROBES = [
 ]
 
 
+# a built-in that fails inside a routine (what happens to the script then is
+# not specified -- it may stop there): whatever is printed afterwards still
+# obeys the scoping rules, so the output is a prefix of the list given
+PREFIX_PROBES = [
+    ('assign v 100 assign t 1 define f with v begin print v '
+     'assign t [ acos 3 ] print v assign v 7 print v end f 3 print v print t',
+     [3, 3, 7, 100]),
+    ('assign n 50 define g with n begin print n assign q [ sqrt { 0 - 4 } ] '
+     'assign n { n + 1 } print n return n end print [ g 1 ] print n',
+     [1, 2, 2, 50]),
+    ('assign v 9 define h with v begin repeat 2 begin assign z [ asin 5 ] '
+     'print v end end h 4 print v', [4, 4, 9]),
+]
+# a macro defined after a routine whose parameter or local has the same name
+LATE_MACROS = [
+    ('define show with m begin print m assign m { m + 1 } print m end '
+     'define m 40 show 75 print m', [75, 76, 40]),
+    ('define f with v begin print v end define v 5 f 9 print v', [9, 5]),
+    ('define g begin assign t 3 print t end define t 8 g print t', [3, 8]),
+    ('define h with q begin repeat 2 begin assign q { q + 1 } end return q end '
+     'define q 50 print [ h 2 ] print [ h q ] print q', [4, 52, 50]),
+]
+
+
 def part_probes(ctx):
     from bvf import diffrun
     from bvf.runner import run_script
-    for text, want in PROBES:
+    for text, want in PREFIX_PROBES:
+        diffrun.setup([])
+        r = run_script(text)
+        ctx.case('probe:' + text)
+        got = [e[2] for e in r.log if e[0] == 'out' and e[1] == 'out']
+        if not r.accepted or got != want[:len(got)]:
+            ctx.violation('probe:after-failed-built-in',
+                          'printed {} which is not a prefix of {} {} | {}'
+                          .format(got, want, r.errors, text),
+                          {'kind': 'probe', 'script': text})
+        else:
+            ctx.count('probes_ok')
+    for text, want in PROBES + LATE_MACROS:
         if want is None:
             continue
         diffrun.setup([])
